@@ -168,7 +168,19 @@ func runBulkDirect(ctx context.Context, ctrl ledgercontroller.Controller, ops []
 	err := bulking.NewBulker(ctrl).Run(ctx, send, recv, bulking.BulkingOptions{Atomic: atomic, ContinueOnFailure: cont})
 	var out []OpResult
 	i := 0
-	for r := range recv {
+	// Run has returned: nothing is sent any more. It closes the channel on its normal paths but returns early (channel left
+	// open) when BeginTX itself fails, as the HTTP handler expects -- so drain without blocking.
+	for {
+		var r bulking.BulkElementResult
+		var ok bool
+		select {
+		case r, ok = <-recv:
+		default:
+			ok = false
+		}
+		if !ok {
+			break
+		}
 		var res OpResult
 		if r.Error != nil {
 			res.Class = classify(r.Error)
